@@ -180,7 +180,12 @@ impl AsyncWrite for Transport {
         if s.werr && s.wzero {
             s.zero_writes += 1;
             if s.zero_writes > 10_000 {
-                panic!("the transport answered Ok(0) to 10000 writes in a row and the writer keeps trying: it spins forever");
+                // the writer keeps retrying a transport that takes nothing: it would spin forever.  Counted like a panic (shown as
+                // PANIC in the segment); the write then fails for good so that the run can be finished and printed.
+                if s.zero_writes == 10_001 {
+                    PANIC_COUNT.fetch_add(1, Ordering::SeqCst);
+                }
+                return Poll::Ready(Err(io::Error::new(io::ErrorKind::BrokenPipe, "gave up after 10000 zero-length writes")));
             }
             return Poll::Ready(Ok(0));
         }
